@@ -255,8 +255,10 @@ impl<'a> StateMachine<'a> {
         }
         if self.config.max_line_length > 0
             && self.raw_line.len() > self.config.max_line_length
-            // Do not truncate long hunk headers
+            // Do not truncate long hunk headers (which git may have colored)
             && !self.raw_line.starts_with("@@")
+            && !(self.raw_line.starts_with('\x1b')
+                && ansi::strip_ansi_codes(&self.raw_line).starts_with("@@"))
             // Do not truncate ripgrep --json output
             && !self.raw_line.starts_with('{')
         {
